@@ -250,7 +250,10 @@ func (w *World) after(c *Call, err error) {
 		return
 	}
 	if c.IsWrite() {
-		for _, m := range w.After {
+		w.mu.Lock()
+		after := w.After
+		w.mu.Unlock()
+		for _, m := range after {
 			m(w, c)
 		}
 	}
